@@ -588,6 +588,15 @@ impl SpeedLimitTrainSim {
         if utils::almost_eq_uom(&self.state.speed, &speed_target, None) {
             self.state.speed = speed_target;
         }
+        // a train that cannot overcome the resistance stalls; it does not roll backwards
+        ensure!(
+            self.state.speed >= si::Velocity::ZERO,
+            "{}\nTrain cannot keep moving forward: speed would become negative!\nspeed: {:?}\nf_applied: {:?}\nres_net: {:?}",
+            format_dbg!(),
+            self.state.speed,
+            f_applied,
+            res_net
+        );
 
         let f_consist = if f_applied >= si::Force::ZERO {
             self.fric_brake.state.force = si::Force::ZERO;
